@@ -217,6 +217,15 @@ def _val(tag, raw, kind):
 def dec_case(rng):
     pdu, default, exp, kind = foreign(rng)
     fail = None
+    if rng.random() < 0.3:
+        # the decoder is a function of the PDU: PDUs the library refuses (GSM text ending in the escape code, an undecodable
+        # UCS2 tail) decoded just before must leave no trace
+        for bad_text, dc in ((b'ab\x1b', 0), (b'\x1b', 0), (b'\xd8\x00', 8)):
+            try:
+                L.decode_pdu(S.pdu(S.DELIVER_SM, 0, 77, S.sm_body(data_coding=dc, short_message=bad_text)), rng.choice(('gsm0338', 'gsm0338_packed')))
+            except Exception:      # noqa
+                pass
+        kind = kind + '+after-refused'
     try:
         m = L.decode_pdu(pdu, default)
         out = 'ok ' + L.show_msg(m)
